@@ -192,6 +192,35 @@ def h_decode_elf(ctx):
     ctx.outcome('ok')
 
 
+def h_class_independent(ctx):
+    """the name reported for a code of a machine does not depend on the file class (x32 / ILP32 / n32 objects use the 32-bit class of a
+    64-bit machine) nor on the byte order: same machine, same code -> same name in all four struct factories"""
+    S = ctx.lib('elf.structs')
+    C = ctx.lib('construct')
+    cfg = ctx.cfg
+    views = []
+    v = ctx.uint('v', 32)
+    for little, cls in ((True, 64), (True, 32), (False, 32), (False, 64)):
+        st = S.ELFStructs(little_endian=little, elfclass=cls)
+        st.create_basic_structs()
+        st.create_advanced_structs(cfg.get('e_type'), cfg['machine'], cfg.get('osabi'))
+        ad = [a for owner, a in _adapters_of(st) if owner == cfg['owner'] and a.subcon.name == cfg['field']]
+        if not ad:
+            ctx.outcome('no-such-field')
+            ctx.check('field-absent', True)
+            return
+        try:
+            r = ad[0]._decode(v, C.Container())
+        except C.MappingError:
+            r = '<rejected>'
+        views.append([(cond, obj if isinstance(obj, str) else '<raw>') for cond, obj in ctx.alternatives(r)])
+    ctx.outcome('ok')
+    base = views[0]
+    for k, other in enumerate(views[1:]):
+        clash = [ctx.land(c1, c2) for c1, o1 in base for c2, o2 in other if o1 != o2]
+        ctx.check('%s.%s/same-name-in-every-class-and-byte-order/%d' % (cfg['owner'], cfg['field'], k), ctx.lnot(ctx.lor(*clash)) if clash else True)
+
+
 def h_decode_dwarf(ctx):
     S = ctx.lib('dwarf.structs')
     C = ctx.lib('construct')
@@ -291,7 +320,7 @@ def h_tables(ctx):
 def _elf_instances(tier):
     out = []
     cfgs = [(True, 64), (False, 32)] if tier == 'quick' else [(l, c) for l in (True, False) for c in (32, 64)]
-    for little, cls in cfgs[:1] if tier == 'quick' else cfgs:
+    for little, cls in cfgs:      # both classes also in the quick tier: a machine's names must not depend on the class (x32, ILP32 objects)
         for m in MACHINES:
             for osabi in ((None,) if m else (None, 'ELFOSABI_SOLARIS')):
                 for et in (None, 'ET_CORE'):
@@ -307,6 +336,11 @@ HARNESSES = [
       desc='every Enum adapter reachable from ELFStructs (per machine / OS ABI / file type): the real MappingAdapter._decode on a symbolic '
            'code v over the full field width; if it reports name s then some registry assigns v to s',
       bounds={'all': 'all code values of the field width (8/16/32/64 bit)', 'quick': 'ELF64 LSB x 7 machines x Solaris x ET_CORE', 'thorough': 'both classes and byte orders'}),
+    H('h17_5_class_independent', h_class_independent,
+      lambda tier: [dict(machine=m, owner=o, field=f) for m in MACHINES + ['EM_PPC64', 'EM_S390', 'EM_SPARC', 'EM_LOONGARCH']
+                    for o, f in (('Elf_Shdr', 'sh_type'), ('Elf_Phdr', 'p_type'), ('Elf_Dyn', 'd_tag'), ('Elf_Sym', 'st_shndx'), ('Elf_Nhdr', 'n_type'))],
+      expect=('ok',), decoy=-1,
+      desc='per machine: the name (or rawness) of every 32-bit code of sh_type / p_type / d_tag / st_shndx / n_type is the same in the four (class, byte order) struct factories'),
     H('h17_1_decode_dwarf', h_decode_dwarf,
       lambda tier: [dict(version=v, adapter=a) for v in (2, 4, 5) for a in range(0, 24)], expect=('ok',),
       desc='every Enum adapter reachable from DWARFStructs: decode of a symbolic 32-bit code'),
